@@ -10,7 +10,7 @@ import (
 	"testing"
 )
 
-var vrPool = []string{"1", "1.0", "2", "10", "9a", "1a", "a", "b", "mon", "Tue", "sun", "x", "jan", "dec", "2021-01-02", "2020-12-31", "-5", "0x10", ""}
+var vrPool = []string{"1", "1.0", "2", "10", "9a", "1a", "a", "b", "mon", "Tue", "sun", "x", "jan", "dec", "2021-01-02", "2020-12-31", "-5", "0x10", "", "007", "8.5"}
 
 func vrPerms(a []string) [][]string {
 	if len(a) <= 1 {
